@@ -17,7 +17,7 @@ SHAPES = [
 def run(ck):
     quick = ck.tier == "quick"
     ck.prepare("C06")
-    if not ck.harness_ok:
+    if not (ck.harness_ok and ck.model_ok):
         return ck.finish(level="other", trusted=COMMON_TRUSTED)
     import scenarios, c14
     sources = [("shape%d" % i, s) for i, s in enumerate(SHAPES)] + scenarios.all_sources() + list(c14.SCENARIOS)
@@ -51,6 +51,9 @@ def run(ck):
                 nondet += 1
                 ck.violation(f"the same source compiles to {len(s)} different circuits ({cfg}) across {nproc} processes x {n} compilations",
                              {"program": src, "config": cfg, "fingerprints": sorted(s)})
+    # the model of the lowering is a function (C06_lowering_is_a_function); tied to compile.rs it pins the one circuit
+    import lowertie
+    lowertie.tie_pass(ck, sources, max_programs=120 if quick else 2500)
     ck.coverage.update({
         "evaluations": len(sources) * n * nproc * 2, "distinct_nontrivial": compared,
         "rule": "every program (order-dependence shapes: panic conditions shared by both branches of a conditional and "
